@@ -103,7 +103,7 @@ class AnyConverter(BaseConverter):
 
     def to_url(self, value: t.Any) -> str:
         if value in self.items:
-            return str(value)
+            return super().to_url(value)
 
         valid_values = ", ".join(f"'{item}'" for item in sorted(self.items))
         raise ValueError(f"'{value}' is not one of {valid_values}")
